@@ -23,6 +23,7 @@ import ast
 
 from ..astutil import call_name, calls, const_eval, dotted, names_in, param_names, stmts, walk_local, NotConst, Sym
 from ..core import AnalysisError, Mutant
+from ..exprnorm import same_expr
 
 EXPLANATION = (
     "BondType members read from bonds.pyx (lowered) and compared with the literal tables of "
@@ -424,11 +425,15 @@ def model_layout(ctx):
         cargs = list(rep[0].value.args) + [k.value for k in rep[0].value.keywords if k.arg == "repeats"]
         ctx.need(len(cargs) >= 2, "np.repeat(values, repeats)")
         a0, a1 = cargs[:2]
-        ok = "stack_depth" in ast.unparse(a0) and "arange" in ast.unparse(a0) and "array_length" in ast.unparse(a1)
+        ok = isinstance(a0, ast.Call) and call_name(a0) == "np.arange" and len(a0.args) == 2 and same_expr(a0.args[0], "1") \
+            and same_expr(a0.args[1], "array.stack_depth() + 1") and same_expr(a1, "array.array_length()") \
+            and not any(k.arg == "axis" for k in rep[0].value.keywords)
     ctx.ob("R7.model-number-column", CONV, "set_structure", ast.unparse(rep[0].value)[:90] if rep else "pdbx_PDB_model_num", ok,
            "each model number 1..depth is repeated array_length times (model-major rows)", st.lineno)
     cr = [n for n in ast.walk(st) if isinstance(n, ast.Call) and call_name(n) in ("np.reshape",) and "coord" in ast.unparse(n.args[0])]
-    okc = bool(cr) and "stack_depth() * " in ast.unparse(cr[0].args[1]) and "array_length()" in ast.unparse(cr[0].args[1])
+    okc = bool(cr) and same_expr(cr[0].args[0], "array.coord") and len(cr[0].args) == 2 and (
+        same_expr(cr[0].args[1], "(array.stack_depth() * array.array_length(), 3)") or same_expr(cr[0].args[1], "(-1, 3)")) \
+        and all(k.arg == "order" and same_expr(k.value, "'C'") for k in cr[0].keywords)
     ctx.ob("R7.coord-flattening", CONV, "set_structure", ast.unparse(cr[0])[:90] if cr else "np.reshape(array.coord, ...)", okc,
            "coordinates (models, atoms, 3) are flattened in C order to (models*atoms, 3): model-major", st.lineno)
     gs = s.func("get_structure")
@@ -509,6 +514,8 @@ def downcast_bounds(ctx, rule):
                    ok, "unsigned types may only be tried when the minimum of the array is >= 0", loop.lineno)
 
 MUTANTS = [
+    Mutant("coord-flattened-fortran", CONV, "coord = np.reshape(array.coord, (array.stack_depth() * array.array_length(), 3))", "coord = np.reshape(array.coord, (array.stack_depth() * array.array_length(), 3), order=\"F\")", "R7.coord-flattening"),
+    Mutant("model-numbers-from-zero", CONV, "np.arange(1, array.stack_depth() + 1, dtype=np.int32),", "np.arange(0, array.stack_depth(), dtype=np.int32),", "R7.model-number-column"),
     Mutant("repeat-mask-elementwise", CONV, "Data(np.tile(column.mask.array, repetitions))", "Data(np.repeat(column.mask.array, repetitions))", "R7.column-expansion"),
     Mutant("first-altloc-sorted", FILT, "        letter_altloc_ids = [loc for loc in altloc_ids[start:stop] if loc.isalpha()]\n        if len(letter_altloc_ids) > 0:\n            first_id", "        letter_altloc_ids = np.unique([loc for loc in altloc_ids[start:stop] if loc.isalpha()])\n        if len(letter_altloc_ids) > 0:\n            first_id", "R4.first-altloc-file-order"),
     Mutant("compress-guard-signed", COMPRESS, "np.abs(array) * factor", "array * factor", "R6.fixed-point-guard-scaled"),
